@@ -1,12 +1,14 @@
 package main
 
 import (
+	"bytes"
 	"encoding/hex"
 	"encoding/json"
 	"fmt"
 	"strings"
 
 	psatoken "github.com/veraison/psatoken"
+	"github.com/veraison/psatoken/zzverif/simrt"
 )
 
 // W-OBS: a pool of claims-sets and Evidence objects in assorted states (built
@@ -102,7 +104,7 @@ func (obsWorld) Gen(prop, tier string, idx int, r *Rng) *Trace {
 		if o.Kind != "built" && o.Kind != "ev-signed" && r.Chance(1, 3) {
 			n := r.Range(1, 2)
 			for k := 0; k < n; k++ {
-				o.Tree = append(o.Tree, r.Intn(64), r.Intn(40))
+				o.Tree = append(o.Tree, r.Intn(64), r.Intn(64))
 			}
 		}
 		cfg.Objs = append(cfg.Objs, o)
@@ -169,7 +171,9 @@ func observe(c psatoken.IClaims, e *psatoken.Evidence, order []string, verifyRev
 			if c == nil {
 				p[k] = "<nil>"
 			} else {
-				p[k] = safely(func() string { return ec(c.Validate()) })
+				// same build on both sides of every comparison in this world, so the
+				// error text may be compared as well as its class
+				p[k] = safely(func() string { return errText(c.Validate()) })
 			}
 		case "cbor":
 			if c == nil {
@@ -216,6 +220,41 @@ func observe(c psatoken.IClaims, e *psatoken.Evidence, order []string, verifyRev
 			}
 			p[k] = string(v)
 		}
+	}
+	return p
+}
+
+func errText(err error) string {
+	if err == nil {
+		return "ok"
+	}
+	return ec(err) + ": " + err.Error()
+}
+
+// obsOrderTick makes every library map range executed during W-OBS use a
+// different iteration order from the previous one (seam T1): a result that
+// depends on map order then differs between repetitions.
+var obsOrderTick int
+
+func obsOrderFn(site, n int) []int {
+	obsOrderTick++
+	p := make([]int, n)
+	for i := range p {
+		p[i] = (i*(1+obsOrderTick%2*(n-1)) + obsOrderTick) % n
+		if obsOrderTick%2 == 1 {
+			p[i] = (n - 1 - i + obsOrderTick) % n
+		}
+	}
+	seen := make([]bool, n)
+	for _, v := range p {
+		if v < 0 || v >= n || seen[v] {
+			q := make([]int, n)
+			for i := range q {
+				q[i] = (i + obsOrderTick) % n
+			}
+			return q
+		}
+		seen[v] = true
 	}
 	return p
 }
@@ -385,7 +424,7 @@ func readCall(l *obsLive, call string, key int) string {
 		}
 		switch call {
 		case "validate":
-			return ec(c.Validate())
+			return errText(c.Validate())
 		case "g.profile":
 			v, e := c.GetProfile()
 			return fmt.Sprintf("%q/%s", v, ec(e))
@@ -448,8 +487,17 @@ func (obsWorld) Exec(prop string, t *Trace) *Result {
 	}
 	registerSimProfiles()
 	disarmCodec()
+	obsOrderTick = 0
+	simrt.OrderFn = obsOrderFn
+	defer func() { simrt.OrderFn = nil }()
 	n := len(cfg.Objs)
 	A := make([]*obsLive, n)
+	type heldBytes struct {
+		ret, snap []byte
+		at        int
+		what      string
+	}
+	var heldEnc []heldBytes
 	obs0 := make([]obsParts, n)
 	first := make([]map[string]string, n)
 	refVerify := make([]string, n)
@@ -494,6 +542,13 @@ func (obsWorld) Exec(prop string, t *Trace) *Result {
 		}
 	}
 	checkAll := func(step int, what string) {
+		for _, h := range heldEnc {
+			if !bytes.Equal(h.ret, h.snap) {
+				res.violate("C18", "earlier-encoding-changed", "", step, "bytes returned by %s at step %d were modified by a later read-side call (%s): encoding results must be stable\n was: %x\n now: %x", h.what, h.at, what, h.snap, h.ret)
+				heldEnc = nil
+				break
+			}
+		}
 		for j := range A {
 			if A[j] == nil {
 				continue
@@ -526,6 +581,28 @@ func (obsWorld) Exec(prop string, t *Trace) *Result {
 			shape += op.S + ","
 			if r1 != r2 {
 				res.violate("C18", "repeated-call-differs", "", i, "%s on object %d gave two different results back to back:\n   1: %s\n   2: %s", op.S, op.A, r1, r2)
+			}
+			if l.claims != nil && (op.S == "enc.cbor" || op.S == "enc.json" || op.S == "venc.cbor" || op.S == "venc.json") {
+				// keep the very slice an encoder hands out
+				func() {
+					defer func() { _ = recover() }()
+					var b []byte
+					var err error
+					switch op.S {
+					case "enc.cbor":
+						b, err = psatoken.EncodeClaimsToCBOR(l.claims)
+					case "enc.json":
+						b, err = psatoken.EncodeClaimsToJSON(l.claims)
+					case "venc.cbor":
+						b, err = psatoken.ValidateAndEncodeClaimsToCBOR(l.claims)
+					default:
+						b, err = psatoken.ValidateAndEncodeClaimsToJSON(l.claims)
+					}
+					if err == nil && len(b) > 0 {
+						heldEnc = append(heldEnc, heldBytes{ret: b, snap: append([]byte{}, b...), at: i, what: op.S})
+						res.Probes["held_encodings"]++
+					}
+				}()
 			}
 			key := fmt.Sprintf("%s/%d", op.S, op.C)
 			if f, ok := first[op.A][key]; ok && f != r1 {
@@ -598,6 +675,58 @@ func (obsWorld) Exec(prop string, t *Trace) *Result {
 			res.logf("%d scribble obj=%d mode=%d", i, op.A, op.B%4)
 			checkAll(i, "overwriting the input buffer of object "+fmt.Sprint(op.A))
 		}
+	}
+	// Last of all (it is destructive): the object that went through the history
+	// and a fresh twin must react identically to being re-populated from a valid
+	// token of their own profile - a difference means a read-side call left
+	// something behind that the getters do not show.
+	for j := range A {
+		if A[j] == nil || A[j].claims == nil {
+			continue
+		}
+		fresh := cfg.Objs[j].materialise(&cfg)
+		if fresh == nil || fresh.claims == nil {
+			continue
+		}
+		fam := "p2"
+		switch A[j].claims.(type) {
+		case *psatoken.P1Claims:
+			fam = "p1"
+		case *XP1Claims:
+			fam = "xp1"
+		case *XP2Claims:
+			fam = "xp2"
+		}
+		repop := func(c psatoken.IClaims) string {
+			return safely(func() string {
+				d := genValidClaims(NewRng(uint64(0x18e+j)), fam)
+				if len(d.Sw) == 0 {
+					d.Sw = []SwDesc{baseComp}
+					d.NoMeas = nil
+				}
+				src, err := d.build()
+				if err != nil {
+					return "unbuildable"
+				}
+				tok, err := psatoken.EncodeClaimsToCBOR(src)
+				if err != nil {
+					return "unencodable"
+				}
+				u, ok := c.(interface{ UnmarshalCBOR([]byte) error })
+				if !ok {
+					return "n/a"
+				}
+				if err := u.UnmarshalCBOR(tok); err != nil {
+					return "err"
+				}
+				return fullObs(c)
+			})
+		}
+		res.Evals++
+		if a, b := repop(A[j].claims), repop(fresh.claims); a != b {
+			res.violate("C18", "history-left-hidden-state", "", len(t.Ops), "object %d (%s) after its read-only history and a fresh twin react differently to being re-populated from the same valid token:\n history: %s\n fresh:   %s", j, cfg.Objs[j].Kind, a, b)
+		}
+		res.Probes["repopulate_compared"]++
 	}
 	res.NonTrivial = reads > 0 && res.Probes["invalid_object"] > 0 && res.Probes["valid_object"] > 0
 	res.Shape = hash64(shape, fmt.Sprint(scribbles > 0))
